@@ -16,7 +16,8 @@ if os.path.abspath(REPO) != "/repo":
     # in a private build area so that concurrent checks against /repo are never disturbed
     ALT = os.path.join(BUILD, "alt", hashlib.sha1(os.path.abspath(REPO).encode()).hexdigest()[:10])
     os.makedirs(ALT, exist_ok=True)
-    subprocess.run(["rsync", "-a", "--delete", os.path.join(ROOT, "coq") + "/", os.path.join(ALT, "coq") + "/"], check=False)
+    # the extraction targets are rebuilt inside the private area (their side effect, model.ml, lives in its build directory)
+    subprocess.run(["rsync", "-a", "--delete", "--exclude=extract/*.vo", "--exclude=extract/*.vos", "--exclude=extract/*.vok", "--exclude=extract/*.glob", os.path.join(ROOT, "coq") + "/", os.path.join(ALT, "coq") + "/"], check=False)
     COQ = os.path.join(ALT, "coq")
     BUILD = os.path.join(ALT, "build")
     TARGET = os.path.join(BUILD, "target")
@@ -223,6 +224,8 @@ def ocaml_build(name, driver, timeout=600):
             for s in srcs:
                 o.write(open(s).read() + "\n")
         rc, out = sh("ocamlfind ocamlopt -w -a -package unix -linkpkg main.ml -o %s.tmp 2>&1 && mv %s.tmp %s" % (exe, exe, exe), cwd=d, timeout=timeout)
+        if rc != 0 and os.path.exists(exe):
+            os.remove(exe)          # never run a stale executable model
     return rc == 0, out, exe
 
 
